@@ -155,7 +155,9 @@ func (b *boundInformer) AddEventHandlerWithResyncPeriod(h toolscache.ResourceEve
 }
 func (b *boundInformer) RemoveEventHandler(h toolscache.ResourceEventHandlerRegistration) error {
 	w := b.inf.w
-	w.yield("inf", "remove-handler "+b.inf.gvk.Kind)
+	if err := w.yieldErr("remove-handler " + b.inf.gvk.Kind); err != nil {
+		return err
+	}
 	if r, ok := h.(*reg); ok {
 		delete(b.inf.regs, r.id)
 	}
@@ -172,7 +174,9 @@ type fakeCache struct {
 }
 
 func (c *fakeCache) get(ctx context.Context, gvk schema.GroupVersionKind) (cache.Informer, error) {
-	c.w.yield("inf", "get-informer "+gvk.Kind)
+	if err := c.w.yieldErr("get-informer " + gvk.Kind); err != nil {
+		return nil, err
+	}
 	ctrl, _ := ctx.Value(ctrlKey{}).(*fakeCtrl)
 	inf := c.infs[gvk]
 	if inf == nil {
@@ -190,6 +194,7 @@ func (c *fakeCache) GetInformerForKind(ctx context.Context, gvk schema.GroupVers
 func (c *fakeCache) RemoveInformer(_ context.Context, obj client.Object) error {
 	gvk := obj.GetObjectKind().GroupVersionKind()
 	c.w.yield("inf", "remove-informer "+gvk.Kind)
+	c.w.removedAt[gvk] = c.w.tick()
 	if inf := c.infs[gvk]; inf != nil {
 		inf.gone = true
 		inf.regs = map[int]*reg{}
@@ -246,6 +251,7 @@ type opIn struct {
 
 type opOut struct {
 	Running bool
+	Err     bool
 }
 
 type world struct {
@@ -262,6 +268,7 @@ type world struct {
 	wait   map[*simsync.RWMutex]int
 	names  map[*simsync.RWMutex]string
 	quiet  bool // sequential probe phase: no yields
+	removedAt map[schema.GroupVersionKind]int64
 }
 
 func (w *world) yield(seam, key string) {
@@ -269,6 +276,19 @@ func (w *world) yield(seam, key string) {
 		return
 	}
 	w.s.Yield(w.proc, seam, key, nil, nil)
+}
+
+var infMenu = []sim.Outcome{sim.ErrBefore}
+
+// yieldErr is a yield point at which the informer machinery may fail.
+func (w *world) yieldErr(key string) error {
+	if w.quiet {
+		return nil
+	}
+	if o, _ := w.s.Yield(w.proc, "inf", key, infMenu, nil); o == sim.ErrBefore {
+		return fmt.Errorf("fake informer: injected failure (%s)", key)
+	}
+	return nil
 }
 
 // Acquire implements simsync.Hooks.
@@ -326,7 +346,7 @@ func watchFor(gvk schema.GroupVersionKind, wt engine.WatchType) engine.Watch {
 }
 
 func (prop) Run(t *testing.T, s *sim.Sim, res *runner.Result) {
-	w := &world{s: s, proc: s.NewProc("core"), wait: map[*simsync.RWMutex]int{}, names: map[*simsync.RWMutex]string{}}
+	w := &world{s: s, proc: s.NewProc("core"), wait: map[*simsync.RWMutex]int{}, names: map[*simsync.RWMutex]string{}, removedAt: map[schema.GroupVersionKind]int64{}}
 	elected := make(chan struct{})
 	close(elected)
 	w.mgr = &fakeMgr{elected: elected, scheme: kit.Scheme()}
@@ -338,6 +358,9 @@ func (prop) Run(t *testing.T, s *sim.Sim, res *runner.Result) {
 	defer func() { simsync.Hook = nil }()
 
 	tp := s.Tape
+	// informer failures: off in most runs, rare otherwise
+	s.Cfg.Kinds = map[sim.Outcome]bool{sim.ErrBefore: true}
+	s.Cfg.Permille = []int{0, 0, 25, 80}[tp.Next(4)]
 	nClients := 2 + tp.Next(3)
 	// XRs seen by the collector: each references a subset of the composed kinds
 	for i := 0; i < 1+tp.Next(2); i++ {
@@ -379,8 +402,8 @@ func (prop) Run(t *testing.T, s *sim.Sim, res *runner.Result) {
 				names = append(names, "Stop "+name)
 				ops = append(ops, func() {
 					call := w.tick()
-					_ = w.eng.Stop(context.Background(), name)
-					w.record(c, opIn{"stop", name}, opOut{}, call)
+					err := w.eng.Stop(context.Background(), name)
+					w.record(c, opIn{"stop", name}, opOut{Err: err != nil}, call)
 				})
 			case 3:
 				names = append(names, "IsRunning "+name)
@@ -392,8 +415,9 @@ func (prop) Run(t *testing.T, s *sim.Sim, res *runner.Result) {
 			case 4, 5, 6:
 				names = append(names, fmt.Sprintf("StartWatches %s %s,%s", name, k.Kind, k2.Kind))
 				ops = append(ops, func() {
+					began := w.tick()
 					if err := w.eng.StartWatches(name, watchFor(k, wt), watchFor(k2, wt2)); err == nil {
-						w.afterStartWatches(name, k, k2)
+						w.afterStartWatches(name, began, k, k2)
 					}
 				})
 			case 7:
@@ -488,7 +512,7 @@ func (w *world) liveCtrl(name string) *fakeCtrl {
 // every requested kind (this is what re-establishes a watch lost with its
 // informer) - unless the controller was stopped or the informer removed again
 // in the meantime.
-func (w *world) afterStartWatches(name string, ks ...schema.GroupVersionKind) {
+func (w *world) afterStartWatches(name string, began int64, ks ...schema.GroupVersionKind) {
 	cur := w.liveCtrl(name)
 	if cur == nil {
 		return
@@ -497,7 +521,13 @@ func (w *world) afterStartWatches(name string, ks ...schema.GroupVersionKind) {
 	for _, k := range ks {
 		inf := w.cache.infs[k]
 		if inf == nil {
-			continue // removed again concurrently
+			if w.removedAt[k] >= began {
+				continue // removed again while this request ran
+			}
+			// the informer was removed before this request began and the request
+			// did not bring it back
+			w.s.Violate("C13/start-did-not-establish-watch/informer-still-gone", fmt.Sprintf("StartWatches(%s, %s) succeeded but the informer for %s, removed earlier, was not restarted", name, k.Kind, k.Kind))
+			continue
 		}
 		if regs[cur][k] >= 1 {
 			continue
@@ -554,6 +584,11 @@ func (w *world) checkLinearizable() {
 			case "start":
 				return true, true
 			case "stop":
+				if output.(opOut).Err {
+					// a failed stop (a source could not be stopped) leaves the
+					// controller running; it can only fail on a running controller
+					return running, running
+				}
 				return true, false
 			case "isrunning":
 				return output.(opOut).Running == running, running
